@@ -191,6 +191,32 @@ func (c *Call) JS() interface{} {
 	return J{"k": "call", "recv": c.Recv.stepsJS(), "fn": c.Fn, "args": args}
 }
 
+// Sel is an element or a member of what a method call yields: F.HeavyV(x)[1], F.HeavyP(x).V
+type Sel struct {
+	Base   *Call
+	I      Expr   // element selector (Member == "")
+	Member string // member name
+}
+
+func (s *Sel) GRL() string {
+	if s.Member != "" {
+		return s.Base.GRL() + "." + s.Member
+	}
+	return s.Base.GRL() + "[" + s.I.GRL() + "]"
+}
+func (s *Sel) JS() interface{} {
+	if s.Member != "" {
+		return J{"k": "mem", "base": s.Base.JS(), "m": s.Member}
+	}
+	return J{"k": "sel", "base": s.Base.JS(), "i": s.I.JS()}
+}
+
+// NowE is the built-in Now(): the one expression whose value is not a function of the facts.
+type NowE struct{}
+
+func (*NowE) GRL() string     { return "Now()" }
+func (*NowE) JS() interface{} { return J{"k": "now"} }
+
 // Action of a then-scope.
 type Action struct {
 	Kind string // asg, retract, complete, forget, changed, set (setter method call F.SetX(e))
